@@ -6,7 +6,7 @@
    (cccd_position, sorted_infos = characteristics_sorted_by_priority), AttSrvCbModel.v (callback count). *)
 From BT Require Import Base.ListX Base.Bits2 AttDb.AttDbModel AttDb.AttDbNotifProofs NQueue.NQueueModel AttSrv.AttSrvModel
   AttSrv.AttSrvFrame AttSrv.AttSrvCbModel AttSrv.AttSrvNotifSpec AttSrv.AttSrvSpecC09 AttSrv.AttSrvProofsC09
-  AttSrv.AttSrvNotifExamples AttDb.AttDbProofs AttSrv.AttSrvProofsC09T AttSrv.AttSrvProofsC09T2.
+  AttSrv.AttSrvNotifExamples AttDb.AttDbProofs AttSrv.AttSrvProofsC09T AttSrv.AttSrvProofsC09T2 AttSrv.AttSrvProofsC09T3 AttSrv.AttSrvNoFault.
 Local Open Scope N_scope.
 
 (* ---- lens laws of the packed store, for ANY number n of CCCDs (in particular across the 4-per-byte
@@ -120,6 +120,16 @@ Theorem C09_monitor_accepts_model_partial :
     no_fault9 (srv9_run c (srv9_init c) ops) -> monitor09 c (srv9_run c (srv9_init c) ops) = None.
 Proof. exact monitor09_accepts_model_all. Qed.
 Print Assumptions C09_monitor_accepts_model_partial.
+
+(* ---- the same WITHOUT a no-FAULT hypothesis for l2cap_input: every state along the history is reachable, so
+   C01_no_fault_reachable (att-core) applies; the requests are inside the hypotheses of l2cap_input (connection
+   0..2, 1 <= length pdu, 23 <= out_size, bytes), no characteristic uses the marker uuid 0x0001. A no-FAULT
+   hypothesis remains only for the operations that are not l2cap_input (l2cap_output, notify / indicate). *)
+Theorem C09_monitor_accepts_model_partial_no_input_fault :
+  forall c ops, wf c -> no_includes c -> no_marker_uuids c -> env09 c = true -> forallb op09_req ops = true ->
+    no_fault9_other (srv9_run c (srv9_init c) ops) -> monitor09 c (srv9_run c (srv9_init c) ops) = None.
+Proof. exact monitor09_accepts_model_reach. Qed.
+Print Assumptions C09_monitor_accepts_model_partial_no_input_fault.
 
 (* MISSING w.r.t. the full statement: configurations with include_service<>, with a write queue (prepared CCCD
    writes) or with encryption requirements on characteristics with CCCD. *)
